@@ -27,7 +27,10 @@ fn chunks(stream: &[u8], cuts: &[usize]) -> Vec<Vec<u8>> {
 /// Build the peer script: hello (cut), wait for the client's hello and requests, then the reply
 /// stream (cut); after every chunk that completes one or more replies: a mark and a silence.
 fn segmentation_scenario(kind: Kind, hello_cuts: &[usize], replies: &[Vec<u8>], reply_cuts: &[usize], label: String) -> Scenario {
-    let hello = hello_msg(&[CAP_BASE10, CAP_JUNOS]);
+    segmentation_scenario_with_hello(kind, hello_msg(&[CAP_BASE10, CAP_JUNOS]), hello_cuts, replies, reply_cuts, label)
+}
+
+pub(crate) fn segmentation_scenario_with_hello(kind: Kind, hello: Vec<u8>, hello_cuts: &[usize], replies: &[Vec<u8>], reply_cuts: &[usize], label: String) -> Scenario {
     let mut steps: Vec<Step> = chunks(&hello, hello_cuts).into_iter().map(Step::Chunk).collect();
     steps.push(Step::WaitClientMessages(1 + replies.len()));
     let stream: Vec<u8> = replies.concat();
@@ -52,10 +55,10 @@ fn segmentation_scenario(kind: Kind, hello_cuts: &[usize], replies: &[Vec<u8>], 
             steps.push(Step::SleepMs(SILENCE_MS));
         }
     }
-    Scenario { kind, steps, requests: replies.len(), extra_request: false, label, bad_credentials: false, password: crate::rsim::SSH_PASSWORD.to_string(), big_request: 0 }
+    Scenario { kind, steps, requests: replies.len(), extra_request: false, label, bad_credentials: false, password: crate::rsim::SSH_PASSWORD.to_string(), big_request: 0, slow_peer: false }
 }
 
-fn oracle_c06(sc: &Scenario, o: &Outcome) -> Verdict {
+pub(crate) fn oracle_c06(sc: &Scenario, o: &Outcome) -> Verdict {
     let t = sc.kind.name();
     if let Some(e) = &o.harness_error {
         return Verdict::violation("harness-error", format!("{t}/{}: {e}", sc.label));
@@ -236,6 +239,13 @@ fn run_c06(ctx: &mut Ctx) -> Verdict {
                 ctx.count("runs.reader_dropped_between_deliveries");
                 return super::c18_rsim::run_mode(ctx, super::c18_rsim::Mode::DropReaders);
             }
+            // one seeded run in 25: the other direction - a large request (70-260 KiB) on a connection with
+            // small socket buffers to a peer that reads slowly: the peer must get the whole message, delimiter
+            // included, without needing further traffic from the client
+            if ctx.tape.weighted(&[24, 1]) == 1 {
+                ctx.count("runs.large_request_to_slow_peer");
+                return super::c18_rsim::run_mode(ctx, super::c18_rsim::Mode::BigRequest);
+            }
             c06_seeded(ctx)
         }
     };
@@ -346,6 +356,7 @@ fn disconnect_scenario(kind: Kind, point: Point, outstanding: usize, close: Clos
         bad_credentials: false,
         password: crate::rsim::SSH_PASSWORD.to_string(),
         big_request: 0,
+        slow_peer: false,
     }
 }
 
@@ -437,6 +448,7 @@ pub(crate) fn truncated_then_closed(ctx: &mut Ctx) -> Verdict {
 
 fn run_c07(ctx: &mut Ctx) -> Verdict {
     let sc = match ctx.enum_index {
+        Some(i) if i as usize >= c07_enum_count() => return super::c07_proc::run(ctx, i - c07_enum_count() as u64),
         Some(i) => match c07_enumerated(i as usize) {
             Some(s) => s,
             None => return Verdict::Pass,
@@ -468,6 +480,15 @@ const COMPONENTS: &[(&str, &str)] = &[
     ("peer", "scripted: tokio-rustls acceptor / russh server / fakecli helper that hands its stdin+stdout to the harness"),
 ];
 
+const COMPONENTS_C07: &[(&str, &str)] = &[
+    ("netconf transport/tls.rs, transport/ssh.rs, transport/junos_local.rs (receive loops, pump task)", "real"),
+    ("netconf session layer", "real"),
+    ("kernel loopback TCP, pipes, rustls, russh, tokio runtime + IO driver (current_thread, paused clock)", "real"),
+    ("peer", "scripted: tokio-rustls acceptor / russh server / fakecli helper that hands its stdin+stdout to the harness"),
+    ("agent executable: task.rs (Updater::run, Loop::start), policies/*, netconf client over TLS, bgpfu-lib + irrc over TCP", "real, 15 enumerated job-level scenarios: target/release/agentbin as a child process on the real clock"),
+    ("router / IRRd of the job-level scenarios", "models: FakeJunos behind a tokio-rustls listener, FakeIrrd on a loopback TCP socket (optionally silent)"),
+];
+
 pub static C06: PropSpec = PropSpec {
     id: "C06",
     simulator: "R-sim",
@@ -475,7 +496,7 @@ pub static C06: PropSpec = PropSpec {
     runs: |t| if t == Tier::Thorough { 300_000 } else { 500 },
     enumerated: |_| 3 * c06_enum_per_kind() as u64,
     run: run_c06,
-    rule: "enumerated per transport (TLS, local CLI, SSH): a two-reply stream with every single cut from 8 bytes before to 8 bytes after each delimiter (hello, reply 1, reply 2), every pair of cuts inside one delimiter, all groupings of 2 and 3 replies into units, one-byte chunks, single-unit replies of 41 sizes around the receive buffer's capacity boundaries; seeded: 1-5 replies of 110..9000 bytes, 0-5 cuts (half of them within 8 bytes of a delimiter), message boundaries cut or merged, hello cut as well; one seeded run in ten drops the reading future between two deliveries (the bytes it had taken off the stream must stay with the transport). One chunk = one TLS record / one SSH CHANNEL_DATA / one pipe write, delivered in lock-step under the paused clock; after each completed reply the peer stays silent for 400 virtual ms. Oracle: every request resolves to its own reply, within 100 virtual ms of the delivery of the last byte of its delimiter. Distinct = distinct event-log hash; every run is non-trivial",
+    rule: "enumerated per transport (TLS, local CLI, SSH): a two-reply stream with every single cut from 8 bytes before to 8 bytes after each delimiter (hello, reply 1, reply 2), every pair of cuts inside one delimiter, all groupings of 2 and 3 replies into units, one-byte chunks, single-unit replies of 41 sizes around the receive buffer's capacity boundaries; seeded: 1-5 replies of 110..9000 bytes, 0-5 cuts (half of them within 8 bytes of a delimiter), message boundaries cut or merged, hello cut as well; one seeded run in ten drops the reading future between two deliveries (the bytes it had taken off the stream must stay with the transport); one seeded run in 25 is the outgoing direction: a request of 70-260 KiB, in half of these runs over a connection with 4 KiB socket buffers to a TLS peer that reads 4 KiB per virtual millisecond - the peer must frame every request exactly once, complete, without further traffic from the client. One chunk = one TLS record / one SSH CHANNEL_DATA / one pipe write, delivered in lock-step under the paused clock; after each completed reply the peer stays silent for 400 virtual ms. Oracle: every request resolves to its own reply, within 100 virtual ms of the delivery of the last byte of its delimiter. Distinct = distinct event-log hash; every run is non-trivial",
     components: COMPONENTS,
     assumptions: &["Linux delivers loopback TCP and pipe data synchronously with write(); the standing two-worker re-execution check guards the resulting determinism"],
     watchdog_s: 8,
@@ -488,10 +509,10 @@ pub static C07: PropSpec = PropSpec {
     simulator: "R-sim",
     level: "fault_enumeration",
     runs: |t| if t == Tier::Thorough { 8_000 } else { 300 },
-    enumerated: |_| c07_enum_count() as u64,
+    enumerated: |_| c07_enum_count() as u64 + super::c07_proc::scenarios(),
     run: run_c07,
-    rule: "enumerated: close point {before hello, inside hello, after hello while idle, between request and reply, inside a reply, after some of the replies} x outstanding requests {0, 1, 2, 3} x close kind per transport (TLS: close_notify+FIN, FIN without close_notify, RST; SSH: channel EOF, channel close, EOF+close, TCP FIN, TCP RST; local: EOF on stdout, child killed); seeded: the same space with 1-4 outstanding requests and seeded cut offsets. Oracle: establishment, every pending request and one request issued afterwards complete with an error (a reply that had fully arrived may succeed) within 5 virtual seconds; a client that stops making virtual-time progress is reported by the real-time watchdog as class 'spin'. Every run is non-trivial",
-    components: COMPONENTS,
+    rule: "enumerated, job level (15 scenarios): the agent executable in daemon mode (real clock) against FakeJunos on a TLS listener and FakeIrrd on loopback TCP; the router closes instead of, or right after, its reply to request 0-4 of the run (open-configuration, the two pipelined get-configs, load, commit) while the IRRd answers normally or has gone silent (an evaluation is then still in progress when the router goes away); the daemon must report the failed job (and announce its retry) within 10 s of the close. enumerated, session level: close point {before hello, inside hello, after hello while idle, between request and reply, inside a reply, after some of the replies} x outstanding requests {0, 1, 2, 3} x close kind per transport (TLS: close_notify+FIN, FIN without close_notify, RST; SSH: channel EOF, channel close, EOF+close, TCP FIN, TCP RST; local: EOF on stdout, child killed); seeded: the same space with 1-4 outstanding requests and seeded cut offsets. Oracle: establishment, every pending request and one request issued afterwards complete with an error (a reply that had fully arrived may succeed) within 5 virtual seconds; a client that stops making virtual-time progress is reported by the real-time watchdog as class 'spin'. Every run is non-trivial",
+    components: COMPONENTS_C07,
     assumptions: &["the spin watchdog reads a real clock (8 s without a virtual-time heartbeat); it can only raise a false alarm if the machine stalls that long"],
     watchdog_s: 8,
     stuck_is_verdict: true,
